@@ -274,6 +274,7 @@ global isal_verif_sched_point:function
 isal_verif_sched_point:
 	SAVE_ALL
 	mov	rdi, [rbp + S_RET]
+	mov	rsi, rbp               ; saved-register frame (the C side may emulate the next instruction and skip it)
 	call	sched_point_c
 	RESTORE_ALL
 	ret
